@@ -54,6 +54,17 @@ def run(ctx, report):
                                      fn=f.path, sp=act[3], config=cfg)
                     if act[0] == "seq" and act[1] == "unknown":
                         report.violate("INC", "%s/seq-write" % name, "sequence number written with an unrecognised value: %s" % act[2], fn=f.path, sp=act[3], config=cfg)
+            # every successful exit of a core mutator went through exactly one commit
+            seen = {}
+            for (bb, idx, cls, sp), counts in sorted(getattr(info, "ok_commit_counts", {}).items(), key=lambda kv: kv[0][:2]):
+                n = seen.get(cls, 0) + 1
+                seen[cls] = n
+                key = "%s/exit:%s%s" % (name, cls, "" if n == 1 else "#%d" % n)
+                report.check("ONCE", key, counts == {1}, "every path of %s to this successful exit commits the re-signed record exactly once" % name,
+                             "%s can return success after %s commits (must be exactly 1): a reported update that did not take place, or took place twice" % (name, sorted(counts)),
+                             fn=f.path, sp=sp, config=cfg)
+            if not getattr(info, "ok_commit_counts", {}):
+                report.violate("ONCE", "%s/no-exit" % name, "core mutator without a recognisable successful exit", fn=f.path, sp=f.span, config=cfg)
         elif info.kind == "wrapper":
             if not info.ok_counts:
                 report.violate("ONCE", "%s/no-exit" % name, "wrapper without a recognisable exit", fn=f.path, sp=f.span, config=cfg)
